@@ -161,5 +161,29 @@ __CPROVER_requires(C08_STRCSPN_PRE(s, reject))
 __CPROVER_assigns(g_strcspn_rend, g_strcspn_hit)
 __CPROVER_ensures(C08_STRCSPN_POST(__CPROVER_return_value, s, reject));
 
+/* ------------------------------------------------------------------ strcpy (ISO 7.24.2.3) */
+size_t g_strcpy_L;   /* in: witness, src[L] == 0; dest has room for L+1 bytes */
+size_t g_strcpy_k;   /* in: ghost index */
+char g_strcpy_v;     /* in: old src[k] */
+char g_strcpy_dv;    /* in: old dest[k] */
+size_t g_strcpy_len; /* out: strlen(src) = index of the terminator that was copied */
+#define C08_STRCPY_PRE(dest, src)                                                                     \
+    (C08_IS_STR(src, g_strcpy_L) && __CPROVER_w_ok((dest), g_strcpy_L + 1) &&                         \
+     C08_DISJOINT(dest, src, g_strcpy_L + 1) &&                                                       \
+     C08_IMP(g_strcpy_k <= g_strcpy_L, g_strcpy_v == ((const char *)(src))[g_strcpy_k] &&             \
+                                       g_strcpy_dv == ((const char *)(dest))[g_strcpy_k]))
+/* the string src[0..len] including its terminator is copied, nothing else of dest[0..L] changes, src is intact */
+#define C08_STRCPY_POST(r, dest, src)                                                                 \
+    ((r) == (dest) && g_strcpy_len <= g_strcpy_L && ((const char *)(src))[g_strcpy_len] == 0 &&       \
+     C08_IMP(g_strcpy_k < g_strcpy_len, g_strcpy_v != 0) &&                                           \
+     C08_IMP(g_strcpy_k <= g_strcpy_len, ((const char *)(dest))[g_strcpy_k] == g_strcpy_v) &&         \
+     C08_IMP(g_strcpy_len < g_strcpy_k && g_strcpy_k <= g_strcpy_L,                                   \
+             ((const char *)(dest))[g_strcpy_k] == g_strcpy_dv) &&                                    \
+     C08_IMP(g_strcpy_k <= g_strcpy_L, ((const char *)(src))[g_strcpy_k] == g_strcpy_v))
+char *vc_strcpy(char *dest, const char *src)
+__CPROVER_requires(C08_STRCPY_PRE(dest, src))
+__CPROVER_assigns(__CPROVER_object_upto(dest, g_strcpy_L + 1), g_strcpy_len)
+__CPROVER_ensures(C08_STRCPY_POST(__CPROVER_return_value, dest, src));
+
 /*C08_CONTRACTS_END*/
 #endif
